@@ -55,6 +55,15 @@ PROPS["C01"] = dict(
         "Zrnt.Proofs.C01.withdrawals_empty_registry_witness",
         "Zrnt.Proofs.C01.slashable_eq",
         "Zrnt.Proofs.C01.M_block_refines_S_partial",
+        "Zrnt.Proofs.C01.header_eq",
+        "Zrnt.Proofs.C01.randao_eq",
+        "Zrnt.Proofs.C01.eth1vote_eq",
+        "Zrnt.Proofs.C01.blsChange_eq",
+        "Zrnt.Proofs.C01.payload_eq",
+        "Zrnt.Proofs.C01.exit_eq",
+        "Zrnt.Proofs.C01.deposit_eq",
+        "Zrnt.Proofs.C01.proposer_frame",
+        "Zrnt.Proofs.C01.WF_preserved_block_partial",
     ],
     modes=[dict(name="c01", stateful=True, max_shrinks=3, nontrivial=_nontrivial),
            dict(name="c01pieces", nontrivial=_nontrivial)],
@@ -69,9 +78,14 @@ PROPS["C01"] = dict(
          "(pre/reset lines are not counted); distinct = distinct (position, line) for sequences, distinct lines for pieces",
     trusted_base=TB_COMMON + TB_BLOCK,
     assumptions=ASSUME_BLOCK + [
-        "M_block_refines_S is proved only in part (M_block_refines_S_partial): ZigZagJoin = sorted intersection, exit-queue scan = max+count, "
-        "withdrawals sweep = spec loop, slashable predicate; all other operations rest on the correspondence Go = S only (listed in "
-        "lean/Proofs/Properties/C01.lean)",
+        "M_block_refines_S is proved only in part. Whole operations proved M = S (accept/reject and post-state, M = the code-shaped model "
+        "lean/Zrnt/Beacon/Impl/BlockM.lean that is also the model column of c01/c03): header, randao, eth1 vote, voluntary exit (end to end), "
+        "deposit, BLS-to-execution change, execution payload of all three forks; pieces: ZigZagJoin, exit-queue scan, withdrawals sweep, "
+        "slashable predicate, indexed-attestation structure check, attestation timing. NOT proved (correspondence Go = M = S only): "
+        "process_attestation of every fork, slash_validator and the two slashings as whole operations, sync aggregate, the withdrawals' "
+        "balance/cursor update, the composition into process_block (needs the frame lemma proposer_frame per operation) and block signature/state root",
+        "the round-2 theorems take the EpochsContext as an abstract record with hypotheses that C07 (proposer, committees), C08 (active count, stake) "
+        "and C16 (pubkey cache = registry) establish for a real context",
         "theorem hypotheses: index lists hold uint64 values below the ZigZagJoin end marker 2^64-1; activeCount is the number of active validators "
         "(EpochsContext invariant, C08); epochs/indices stay inside uint64; the withdrawal cursor is inside a non-empty registry",
     ],
